@@ -38,12 +38,16 @@ var chunkSizes = []uint64{100, 1, 2, 3}
 var scanLimits = []uint{0, 1, 2} // 0 = unlimited
 const longRange = 16
 
+// pre-confirmed chains are attached to every state reached by at most this many ops
+const pcDepth = 1
+
 type harness struct {
 	r                     *ev.Run
 	filters               []filter
 	queries               atomic.Int64
 	pages                 atomic.Int64
 	nonEmpty              atomic.Int64
+	pcQueries             atomic.Int64
 	tReplay, tKey, tCheck atomic.Int64
 	sem                   chan struct{} // global CPU slots shared by the concurrent searches
 }
@@ -242,10 +246,12 @@ func TestCheck(t *testing.T) {
 	r.Set("pages", h.pages.Load())
 	r.Set("queries_with_nonempty_answer", h.nonEmpty.Load())
 	r.Set("filters", int64(len(h.filters)))
+	r.Set("pre_confirmed_queries", h.pcQueries.Load())
 	r.Set("cpu_s_replay_key_check", fmt.Sprintf("%.1f %.1f %.1f", float64(h.tReplay.Load())/1e9, float64(h.tKey.Load())/1e9, float64(h.tCheck.Load())/1e9))
 	r.Set("rule", fmt.Sprintf("BFS over histories of ops %v from each base image (see searches), every history replayed on ONE long-lived real Blockchain (restarts are ops); "+
 		"state = KV image + reflective dump of running filter and LRU; in every state that is distinct for queries (image without the snapshot key + the two index objects): "+
-		"%d filters x all ranges over endpoints {0,8191,8192,head-2..head+1} x chunk %v x scan limit %v (limits 1,2 on a fully wildcard filter only for ranges <= %d blocks) "+
+		"%d filters x all ranges over endpoints {0,8191,8192,head-2..head+1} x chunk %v x scan limit %v (on ranges > %d blocks a fully wildcard filter is only run pattern-less, unlimited, chunk 100 and chunk 1) "+
+		"in every state of depth <= 1 additionally 3 pre-confirmed chains (1-2 blocks) above the head x all filters x ranges reaching above the head incl. the pre_confirmed tag at either end; "+
 		"paged to the end (tokens round-tripped through their string form, must advance) and compared event by event with the naive scan of the reference receipts",
 		opList(alphabet), len(h.filters), chunkSizes, scanLimits, longRange))
 	r.Assume = append(r.Assume,
@@ -292,6 +298,9 @@ func (h *harness) search(b *base, alphabet []op, depth int) (states, transitions
 		if !dup {
 			t0 := time.Now()
 			h.checkState(n, p, label)
+			if len(p) <= pcDepth {
+				h.checkPreConfirmed(n, p, label)
+			}
 			h.tCheck.Add(int64(time.Since(t0)))
 		}
 	}
@@ -342,7 +351,15 @@ func (h *harness) search(b *base, alphabet []op, depth int) (states, transitions
 					r.Infra("replay of a known-good prefix failed: %s at %d: %v", pathString(p), at, err)
 				}
 				r.Outcome("op-fails " + opNames[j.o])
-				r.Violate("op-fails "+opNames[j.o]+hist.Backend(b.newState), map[string]any{"base": label, "path": pathString(p), "err": err.Error()})
+				what := opNames[j.o]
+				if i := strings.Index(what, ":"); i > 0 {
+					what = what[:i]
+				}
+				cause := ""
+				if strings.Contains(err.Error(), "block number is not within range") {
+					cause = " (block outside the running filter window)"
+				}
+				r.Violate("op-fails "+what+cause+hist.Backend(b.newState), map[string]any{"base": label, "path": pathString(p), "err": err.Error()})
 				return
 			}
 			t0 = time.Now()
@@ -529,6 +546,22 @@ func classify(got []blockchain.FilteredEvent, exp []*refEvent) (kind string, blo
 	return "wrong-tags", 0
 }
 
+// queryFinds: does the unpaged, unlimited query on bc return exactly exp?
+func queryFinds(bc *blockchain.Blockchain, f *filter, from, to uint64, exp []*refEvent) bool {
+	efI, err := bc.EventFilter(f.addrs, f.keys, noPreConfirmed)
+	if err != nil {
+		return false
+	}
+	ef := efI.(*blockchain.EventFilter)
+	ef.SetRangeEndBlockByNumber(blockchain.EventFilterFrom, from)
+	ef.SetRangeEndBlockByNumber(blockchain.EventFilterTo, to)
+	var res pagedResult
+	if p, _ := ev.Guard(func() { res = runPaged(ef, 100) }); p {
+		return false
+	}
+	return res.err == "" && equalLists(res.evs, exp)
+}
+
 func limitName(l uint) string {
 	if l == 0 {
 		return "unlimited"
@@ -591,6 +624,12 @@ func (h *harness) checkState(n *node, path []op, label string) {
 						ef.WithLimit(lim)
 					}
 					for _, chunk := range chunkSizes {
+						if f.wildcard && to > from && to-from > longRange && !(f.keys == nil && (chunk == 100 || (chunk == 1 && to == head))) {
+							// every block of a long range is a candidate of a wildcard filter (one store
+							// read each, ~8192 per query): only the pattern-less filter scans long ranges,
+							// unpaged for every range and with chunk 1 up to the head
+							continue
+						}
 						q++
 						var res pagedResult
 						if p, msg := ev.Guard(func() { res = runPaged(ef, chunk) }); p {
@@ -642,34 +681,40 @@ func (h *harness) report(n *node, path []op, label string, f *filter, from, to, 
 		if blk >= runningStart {
 			window = "running-window"
 		}
-		// does the omission survive a process restart (i.e. is it in the store) or only in memory?
-		fresh := chain.NewNode(fastCopy(n.pre), n.b.newState)
-		persist := "until-restart (in-memory index state)"
-		if efI, err := fresh.EventFilter(f.addrs, f.keys, noPreConfirmed); err == nil {
-			ef := efI.(*blockchain.EventFilter)
-			ef.SetRangeEndBlockByNumber(blockchain.EventFilterFrom, from)
-			ef.SetRangeEndBlockByNumber(blockchain.EventFilterTo, to)
-			if lim != 0 {
-				ef.WithLimit(lim)
-			}
-			r2 := runPaged(ef, chunk)
-			if r2.err != "" || !equalLists(r2.evs, exp) {
-				persist = "survives-restart (persisted index state)"
-			}
-		}
 		detail["missing_block"] = blk
-		if !baseOK {
-			r.Violate(fmt.Sprintf("event-missing block-in-%s %s%s", window, persist, backend), detail)
-		} else {
-			// the unpaged, unlimited query of the same state is checked too; when that one is right the
-			// defect is in paging
-			r.Violate(fmt.Sprintf("event-missing block-in-%s %s paging-only(chunk<100 or scan-limit)%s", window, persist, backend), detail)
+		if baseOK {
+			// the unpaged, unlimited query of the same (state, filter, range) is right: paging defect
+			r.Violate("paging-only event-missing (unpaged unlimited query of the same state is right)"+backend, detail)
+			return
 		}
+		// Diagnosis, part of the key so that defect classes stay apart:
+		// (1) does the omission survive a process restart (persisted index state) or not (in-memory)?
+		if n.diag == nil {
+			n.diag = chain.NewNode(fastCopy(n.pre), n.b.newState)
+		}
+		persist := "until-restart(in-memory index)"
+		if !queryFinds(n.diag, f, from, to, exp) {
+			persist = "survives-restart(persisted index)"
+		}
+		// (2) is the block also missed when asked for alone (index entry of the block is wrong) or only
+		// inside the wider range (iteration over windows / ranges is wrong)?
+		scope := "also-for-single-block-range"
+		if queryFinds(n.bc, f, blk, blk, naive(allEvents(n.chain), f, blk, blk, true)) {
+			scope = "range-dependent"
+		}
+		// (3) did the history replace blocks? (a stale index entry needs a reorg)
+		reorg := "no-reorg-in-history"
+		for _, o := range path {
+			if o == opRevert {
+				reorg = "after-reorg"
+			}
+		}
+		r.Violate(fmt.Sprintf("event-missing block-in-%s %s %s %s%s", window, persist, scope, reorg, backend), detail)
 		return
 	}
 	if !baseOK {
 		r.Violate(fmt.Sprintf("%s%s", kind, backend), detail)
 		return
 	}
-	r.Violate(fmt.Sprintf("paging-only %s chunk=%d scan-limit=%s%s", kind, chunk, limitName(lim), backend), detail)
+	r.Violate(fmt.Sprintf("paging-only %s (unpaged unlimited query of the same state is right)%s", kind, backend), detail)
 }
